@@ -552,10 +552,14 @@ def collation_compare(tier, seed):
             'rule': 'distinct = (ASCII-ness of the operands, equal after folding)'}
 
 
+_REPLAY_CACHE = {}
+
+
 def _replay_c09(f):
     for fn_ in (bounded_strings, xpath10_strings_vs_libxml2, collation_compare):
-        r = fn_('quick', 0)
-        if any(x['key'] == f.get('key') for x in r['failures']):
+        if fn_.__name__ not in _REPLAY_CACHE:         # one re-run per process serves every recorded failure
+            _REPLAY_CACHE[fn_.__name__] = fn_('quick', 0)
+        if any(x['key'] == f.get('key') for x in _REPLAY_CACHE[fn_.__name__]['failures']):
             return False
     return True
 
